@@ -210,6 +210,57 @@ example :
     parsePath ("/Q{urn:p}r[1]/@Q{urn:q}a".toList) = some (.abs, [.child ⟨"urn:p", "r"⟩ 1, .attr ⟨"urn:q", "a"⟩]) ∧
     parsePath ("/Q{urn:p}r[1]/text()[01]".toList) = none := by decide
 
+/-- the three forms of the `path` argument of `etree_iter_paths`: `'.'` gives `./step/…`, `''` the
+bare relative path, `'/'` the absolute text -/
+theorem etree_render_forms (s : Step) (ss : List Step) :
+    renderEtreeC ['.'] (s :: ss) = '.' :: renderSteps (s :: ss) ∧
+    '/' :: renderEtreeC [] (s :: ss) = renderSteps (s :: ss) ∧
+    renderEtreeC ['/'] (s :: ss) = renderAbsC (s :: ss) := by
+  refine ⟨?_, ?_, ?_⟩ <;> simp [renderEtreeC, etreeSep, renderSteps, renderAbsC]
+
+/-- STRING LEVEL for `etree_iter_paths(e, '/')`: the text yielded for a node below `e`, read by the
+recogniser and evaluated from `e` (what a leading `/` means in a fragment context), selects the node. -/
+theorem etree_abs_text_selects_self (e : Node) (ip : List Nat) (s : Step) (ss : List Step)
+    (hn : e.namesOK = true) (h : (ip, s :: ss) ∈ etreeIterPaths e) :
+    evalText e (renderEtree "/" (s :: ss)) = [⟨ip, .self⟩] := by
+  have hp := etree_paths_agree e ip (s :: ss) h
+  have hok := path_steps_ok e ⟨ip, .self⟩ (s :: ss) hn hp
+  have e1 : renderEtree "/" (s :: ss) = renderAbs (s :: ss) := by
+    have : "/".toList = ['/'] := by decide
+    simp only [renderEtree, renderAbs, this, (etree_render_forms s ss).2.2]
+  rw [e1]
+  simp only [evalText, parse_render_abs (s :: ss) hok]
+  exact etree_paths_select_self e ip (s :: ss) h
+
+/-! ### known finding F14f: `node.path` in a fragment context
+
+For a tree rooted at a parent-less element `node.path` is `/Q{ns}root[1]/…` (pinned by
+tests/test_xpath_nodes.py).  It selects the node through the dummy document of the default context
+(`path_selects_self` with `top := docNode [e]`) and `fn:path` avoids the problem with `root()`
+(`fn_path_text_selects_self`), but evaluated with `XPathContext(fragment=True)` it is evaluated
+inside the root element (`evalAbsInFragment`). -/
+
+/-- F14f, all trees: in a fragment context the root element's own `path` never selects it. -/
+theorem fragment_root_path_fails (e : Node) :
+    evalAbsInFragment e [childStep e 1] ≠ [⟨[], .self⟩] := by
+  intro h
+  have hs := stepFrom_childStep e e 1 [] e rfl
+  simp only [evalAbsInFragment, evalSteps, evalFrom, List.flatMap_cons, List.flatMap_nil, List.append_nil, hs] at h
+  have hm : (⟨[], .self⟩ : Ref) ∈ List.map (fun i => (⟨[] ++ [i], .self⟩ : Ref))
+      (nth1 1 (idxWhere (stepShape e).test e.kids 0)) := by rw [h]; simp
+  obtain ⟨i, _, hi⟩ := List.mem_map.1 hm
+  simp at hi
+
+/-- F14f, kernel-checked on `<r><r><a/></r><a/></r>` as a fragment: the path `/Q{}r[1]/Q{}a[1]` of
+the outer `a` selects the inner `a` (a wrong node); through the dummy document it selects the
+right one. -/
+theorem fragment_abs_path_wrong_node :
+    let a := Node.elem ⟨"", "a"⟩ [] [] []
+    let e := Node.elem ⟨"", "r"⟩ [] [] [.elem ⟨"", "r"⟩ [] [] [a], a]
+    pathOf (docNode [e]) ⟨[0, 1], .self⟩ = some [.child ⟨"", "r"⟩ 1, .child ⟨"", "a"⟩ 1] ∧
+    evalAbsInFragment e [.child ⟨"", "r"⟩ 1, .child ⟨"", "a"⟩ 1] = [⟨[0, 0], .self⟩] ∧
+    evalSteps (docNode [e]) [.child ⟨"", "r"⟩ 1, .child ⟨"", "a"⟩ 1] = [⟨[0, 1], .self⟩] := by decide
+
 /-! ### the pinned tree (05acc20) — defects F14a / F14e, repaired by `fix:` commits of branch fix-c14
 
 `pathOfPinned` is the transcription of the pinned `get_child_position`.  The full statement
